@@ -5,6 +5,9 @@
 // dispatcher. See /verif/DESIGN.md sections 2-4.
 
 #[doc(hidden)]
+pub(crate) type LocalLock = NoopLock;
+
+#[doc(hidden)]
 #[allow(missing_docs, dead_code, unused, missing_debug_implementations)]
 pub mod verif {
     pub mod common {
@@ -170,8 +173,10 @@ pub mod verif {
         // ---------------------------------------------------------------
         // Drop-counting payload with identity.
         // ---------------------------------------------------------------
-        pub const NTAGS: usize = 8;
+        pub const NTAGS: usize = 16;
         pub static TAG_DROPS: [AtomicU8; NTAGS] = [
+            AtomicU8::new(0), AtomicU8::new(0), AtomicU8::new(0), AtomicU8::new(0),
+            AtomicU8::new(0), AtomicU8::new(0), AtomicU8::new(0), AtomicU8::new(0),
             AtomicU8::new(0), AtomicU8::new(0), AtomicU8::new(0), AtomicU8::new(0),
             AtomicU8::new(0), AtomicU8::new(0), AtomicU8::new(0), AtomicU8::new(0),
         ];
@@ -250,4 +255,6 @@ pub mod verif {
     }
 
     include!(concat!(env!("FI_VERIF_INC"), "/dispatch.rs"));
+    #[cfg(feature = "alloc")]
+    include!(concat!(env!("FI_VERIF_INC"), "/life.rs"));
 }
